@@ -1,5 +1,9 @@
-import SaoVerif.Generated.Skeleton
-import SaoVerif.Spec.SkeletonExpected
+import SaoVerif.Skeleton.x_sao_keeper_msg_server_cancel_go
+import SaoVerif.Skeleton.x_sao_keeper_timeout_management_go
+import SaoVerif.Skeleton.x_model_keeper_data_management_go
+import SaoVerif.Skeleton.x_order_keeper_order_management_go
+import SaoVerif.Skeleton.x_market_keeper_pool_management_go
+import SaoVerif.Skeleton.x_node_keeper_shard_pledge_management_go
 /-!
 # C05 — the decision logic of the anchor files is the one that was modelled
 
@@ -7,9 +11,10 @@ The extractor (harness/cmd/extract) regenerates, on every run and from the tree 
 function: its branching constructs in source order, each guard with its condition and with how its branch ends (`return <err>`,
 `continue`, `panic`, …). The hand-written model mirrors exactly these decisions (its `…Pre` / `…Guards` functions are the
 guards of the handlers, in their order). This theorem says that for the files the property is anchored in
-(x/sao/keeper/msg_server_cancel.go, x/sao/keeper/timeout_management.go, x/model/keeper/data_management.go, x/order/keeper/order_management.go; and, because the anchored code calls into them, x_market_keeper_pool_management_go, x_node_keeper_shard_pledge_management_go) the regenerated skeletons equal the ones the model was written against. A change of a guard, of its
-order, or a new or removed branch breaks it: the correspondence then has to be re-established (the check searches the
-histories for a failing input and reports the violation either way).
+(x/sao/keeper/msg_server_cancel.go, x/sao/keeper/timeout_management.go, x/model/keeper/data_management.go, x/order/keeper/order_management.go; and, because the anchored code calls into them, x_market_keeper_pool_management_go, x_node_keeper_shard_pledge_management_go) the regenerated skeletons equal the ones the model was written against
+(one kernel-evaluated equality per source file, `SaoVerif/Skeleton/<file>.lean`). A change of a guard, of its order, or a new or
+removed branch breaks it: the correspondence then has to be re-established (the check searches the histories for a failing
+input and reports the violation either way).
 -/
 namespace SaoVerif
 
@@ -26,6 +31,6 @@ theorem C05_decision_skeleton_as_modelled :
      Expected.Skel.x_order_keeper_order_management_go,
      Expected.Skel.x_market_keeper_pool_management_go,
      Expected.Skel.x_node_keeper_shard_pledge_management_go] := by
-  decide +kernel
+  rw [skel_x_sao_keeper_msg_server_cancel_go, skel_x_sao_keeper_timeout_management_go, skel_x_model_keeper_data_management_go, skel_x_order_keeper_order_management_go, skel_x_market_keeper_pool_management_go, skel_x_node_keeper_shard_pledge_management_go]
 
 end SaoVerif
